@@ -91,7 +91,8 @@ pub fn record_c18(rng: &mut Rng, count: u64, out: &mut Out) {
   for k in 0..count {
     if k % 4 == 3 {
       if k % 40 == 39 {
-        let d = 30 + rng.below(30) as u8;
+        // any u8 above 29: just above, wrap-around values of 8-bit arithmetic on the depth (128 + d, 256 - d), random
+        let d = match rng.below(4) { 0 => 30 + rng.below(30) as u8, 1 => 128 + rng.below(30) as u8, 2 => 255 - rng.below(30) as u8, _ => 30 + rng.below(226) as u8 };
         let p1 = guarded(|| nested::to_uniq(d, 0)).is_none();
         let p2 = guarded(|| nested::to_uniq_ivoa(d, 0)).is_none();
         out.emit(json!({"ev": "uniq_bad", "d": d, "pu": p1 as u8, "pi": p2 as u8}));
